@@ -402,6 +402,90 @@ def at2 (img : List (List Int)) (r c : Nat) : Int := (img.getD r []).getD c 0
 /-- Entry of a 3-D image (0 outside). -/
 def at3 (img : List (List (List Int))) (f r c : Nat) : Int := at2 (img.getD f []) r c
 
+/-- The samples up to and including the last pixel boundary (trailing samples that are no boundary are
+    stripped) — written without reference to the walk. -/
+def uptoLastBoundary (s : List Sample) : List Sample :=
+  (s.reverse.dropWhile fun x => x.2 != 2).reverse
+
+/-- What the property says the pixel list of a colour is, for ANY photon slice `chan` of the item (absent,
+    shorter or longer than the info wave): the walk over the span the two streams share (`zip` stops at the
+    earlier end); zeros, one per boundary, for a colour without data; `none` = no pixel boundary there. -/
+def colourPixelsSpec (iw : List Nat) (chan : List Int) : Option (List Int) :=
+  if chan.length = 0 then (if iw.count 2 = 0 then none else some (List.replicate (iw.count 2) 0))
+  else if ((chan.zip iw).map (·.2)).count 2 = 0 then none
+  else some (pixelsSpecAux 0 (chan.zip iw))
+
+/-- The image total the property promises (`c02.total`): the total count of the used samples of the shared
+    span up to its last boundary; the exception where no image exists. -/
+def expectedTotal (iw : List Nat) (chan : List Int) : Res Int :=
+  match colourPixelsSpec iw chan with
+  | none => .err "IndexError"
+  | some _ => .ok (usedSum (uptoLastBoundary (chan.zip iw)))
+
+/-! ### the property's own wording: which samples make up pixel `j` (index form) -/
+
+/-- number of pixel boundaries strictly before sample `i` = the number of the pixel sample `i` lies in -/
+def pixelOfSample (iw : List Nat) (i : Nat) : Nat := (iw.take i).count 2
+
+/-- total count of the samples that are not flagged discard and lie in pixel `j` -/
+def assignedRaw (data : List Int) (iw : List Nat) (j : Nat) : Int :=
+  ((List.range iw.length).map fun i =>
+    if iw.getD i 0 ≠ 0 ∧ pixelOfSample iw i = j then data.getD i 0 else 0).sum
+
+/-- pixel `j` in the property's words: the sum of the photon counts of exactly the samples the info wave assigns to
+    it (not discarded, `j` boundaries before them), provided the pixel is completed (`j` < number of boundaries) -/
+def assignedSum (data : List Int) (iw : List Nat) (j : Nat) : Int :=
+  if j < iw.count 2 then assignedRaw data iw j else 0
+
+
+/-! ### answers computed from scratch (no object state) -/
+
+/-- `get_image("rgb")` as a function of the three colour images. -/
+def pureRgb (r g b : Res Image) : Res Image :=
+  match r with
+  | .err e => .err e
+  | .ok r => match g with
+    | .err e => .err e
+    | .ok g => match b with
+      | .err e => .err e
+      | .ok b => stack3 r g b
+
+/-- `Kymo.shape` as a function of the colour images. -/
+def pureShape (F : Nat → Res Image) : List Nat → Res (List Nat)
+  | [] => .err "UnboundLocalError"
+  | c :: cs =>
+    match F c with
+    | .err e => .err e
+    | .ok im => if im.flat.length ≠ 0 ∨ cs.isEmpty then .ok (im.shape ++ [3]) else pureShape F cs
+
+def showAnswer : Res Image → String
+  | .err e => e
+  | .ok im => Verif.Proto.showNatList im.shape ++ " " ++ Verif.Proto.showIntList im.flat
+
+/-- The printed answer to query `q` of an object whose start is sample `off`, computed from scratch:
+    what a NEW object with that start answers when `q` is the first thing it is asked. -/
+def pureAnswer (k : Kind) (iw : List Nat) (ss : Streams) (off : Nat) (q : Nat) : String :=
+  let F := fun c => freshImage k iw (streamOf ss c) off
+  if q < 3 then showAnswer (F q)
+  else if q = 3 then showAnswer (pureRgb (F 0) (F 1) (F 2))
+  else match pureShape F [0, 1, 2] with | .err e => e | .ok sh => Verif.Proto.showNatList sh
+
+/-! ### regular info waves (input family of the first-line-repair theorems; `builders_confocal.infowave`) -/
+
+/-- one pixel: `k - 1` samples `use`, then the boundary sample -/
+def regPixel (k : Nat) : List Nat := List.replicate (k - 1) 1 ++ [2]
+/-- one line of `P` pixels -/
+def regLine (k : Nat) : Nat → List Nat
+  | 0 => []
+  | P + 1 => regPixel k ++ regLine k P
+/-- `n` lines, each followed by `d` discarded samples -/
+def regLines (k d P : Nat) : Nat → List Nat
+  | 0 => []
+  | n + 1 => regLine k P ++ (List.replicate d 0 ++ regLines k d P n)
+/-- lead-in, then the lines -/
+def regWave (lead k d P n : Nat) : List Nat := List.replicate lead 0 ++ regLines k d P n
+
+
 /-! ### protocol -/
 open Verif.Proto
 
@@ -425,7 +509,17 @@ def axes? (fa fp sa sp : String) : Option Axes := do
   `c02.scanmeta fa fp sa sp meta [iw]`   `num_frames pixels_per_line lines_per_frame shape`
   `c02.kymoseq P [iw] lr [r]|N lg [g]|N lb [b]|N [queries]`          answers (joined by `;`) of a sequence of
   `c02.scanseq fa fp sa sp [iw] lr [r]|N lg [g]|N lb [b]|N [queries]` queries on ONE object: 0,1,2 = `get_image` of
-                                         red, green, blue; 3 = `get_image("rgb")`; 4 = `Kymo.shape` -/
+                                         red, green, blue; 3 = `get_image("rgb")`; 4 = `Kymo.shape`
+  `c02.kymoseqoff …` / `c02.scanseqoff …` (arguments of `kymoseq` / `scanseq`) the object's start after the sequence, as
+                                         a sample index into the info wave (`ObjState.off` of `stateAfter`)
+  `c02.assigned [data] [iw] [shape…]`    like `c02.sum`, every pixel computed by the index formula `assignedSum`
+  `c02.regwave lead k d P n`             the regular info wave (`regWave`) and where `seek_timestamp_next_line` lands on it
+  `c02.regafter lead k d P n [red]`      the image of a colour covering the whole wave, minus its first line of pixels
+                                         (right-hand side of `fresh_after_repair`)
+  `c02.total k|s [iw] lead [counts]|N`   the image total the property promises for that colour (specification side:
+                                         used samples of the shared span up to its last boundary)
+  `c02.kymopure …` / `c02.scanpure …`    (arguments of `kymoseq` / `scanseq`) every query answered from scratch
+                                         (`pureAnswer` at start 0): what a NEW object answers to it -/
 def handle : List String → Option String
   | ["c02.sum", data, iw, shape] => do
     let data ← intList? data; let iw ← natList? iw; let shape ← natList? shape
@@ -480,6 +574,56 @@ def handle : List String → Option String
     let lr ← int? lr; let cr ← chan? cr; let lg ← int? lg; let cg ← chan? cg; let lb ← int? lb; let cb ← chan? cb
     if pixelsPerLine axes < 2 ∨ linesPerFrame axes < 2 ∨ qs.any (· > 3) then none
     else some (";".intercalate (runSeq (.scan axes) iw [⟨lr, cr⟩, ⟨lg, cg⟩, ⟨lb, cb⟩] ObjState.fresh qs))
+  | ["c02.kymoseqoff", p, iw, lr, cr, lg, cg, lb, cb, qs] => do
+    let p ← nat? p; let iw ← natList? iw; let qs ← natList? qs
+    let lr ← int? lr; let cr ← chan? cr; let lg ← int? lg; let cg ← chan? cg; let lb ← int? lb; let cb ← chan? cb
+    if p = 0 ∨ qs.any (· > 4) then none
+    else some (toString (stateAfter (.kymo p) iw [⟨lr, cr⟩, ⟨lg, cg⟩, ⟨lb, cb⟩] ObjState.fresh qs).off)
+  | ["c02.scanseqoff", fa, fp, sa, sp, iw, lr, cr, lg, cg, lb, cb, qs] => do
+    let axes ← axes? fa fp sa sp
+    let iw ← natList? iw; let qs ← natList? qs
+    let lr ← int? lr; let cr ← chan? cr; let lg ← int? lg; let cg ← chan? cg; let lb ← int? lb; let cb ← chan? cb
+    if pixelsPerLine axes < 2 ∨ linesPerFrame axes < 2 ∨ qs.any (· > 3) then none
+    else some (toString (stateAfter (.scan axes) iw [⟨lr, cr⟩, ⟨lg, cg⟩, ⟨lb, cb⟩] ObjState.fresh qs).off)
+  | ["c02.assigned", data, iw, shape] => do
+    let data ← intList? data; let iw ← natList? iw; let shape ← natList? shape
+    let prod := shape.foldl (· * ·) 1
+    if prod = 0 then none
+    else if data.length ≠ iw.length then some "ValueError"
+    else if iw.count 2 = 0 then some "IndexError"
+    else
+      let px := (List.range (iw.count 2)).map (assignedSum data iw)
+      let m := roundUp px.length prod
+      some (showNatList ((m / prod) :: shape) ++ " " ++ showIntList (padTo px m))
+  | ["c02.regwave", lead, k, d, p, n] => do
+    let lead ← nat? lead; let k ← nat? k; let d ← nat? d; let p ← nat? p; let n ← nat? n
+    let iw := regWave lead k d p n
+    some (showNatList iw ++ " " ++ (match seekNextLine iw with | none => "ValueError" | some v => toString v))
+  | ["c02.regafter", lead, k, d, p, n, red] => do
+    let lead ← nat? lead; let k ← nat? k; let d ← nat? d; let p ← nat? p; let n ← nat? n
+    let red ← intList? red
+    let iw := regWave lead k d p n
+    if p = 0 ∨ red.length ≠ iw.length then none
+    else some (showImage (imageOfPixels (.kymo p) (.ok ((pixelsSpec red iw).drop p))))
+  | ["c02.total", kind, iw, lead, ch] => do
+    let iw ← natList? iw; let lead ← int? lead; let ch ← chan? ch
+    if kind != "k" && kind != "s" then none
+    else match photonCount iw.length lead ch with
+      | none => if kind == "s" then some "RuntimeError" else none
+      | some pc => match expectedTotal iw pc with
+        | .err e => some e
+        | .ok v => some (toString v)
+  | ["c02.kymopure", p, iw, lr, cr, lg, cg, lb, cb, qs] => do
+    let p ← nat? p; let iw ← natList? iw; let qs ← natList? qs
+    let lr ← int? lr; let cr ← chan? cr; let lg ← int? lg; let cg ← chan? cg; let lb ← int? lb; let cb ← chan? cb
+    if p = 0 ∨ qs.any (· > 4) then none
+    else some (";".intercalate (qs.map (pureAnswer (.kymo p) iw [⟨lr, cr⟩, ⟨lg, cg⟩, ⟨lb, cb⟩] 0)))
+  | ["c02.scanpure", fa, fp, sa, sp, iw, lr, cr, lg, cg, lb, cb, qs] => do
+    let axes ← axes? fa fp sa sp
+    let iw ← natList? iw; let qs ← natList? qs
+    let lr ← int? lr; let cr ← chan? cr; let lg ← int? lg; let cg ← chan? cg; let lb ← int? lb; let cb ← chan? cb
+    if pixelsPerLine axes < 2 ∨ linesPerFrame axes < 2 ∨ qs.any (· > 3) then none
+    else some (";".intercalate (qs.map (pureAnswer (.scan axes) iw [⟨lr, cr⟩, ⟨lg, cg⟩, ⟨lb, cb⟩] 0)))
   | _ => none
 
 end Verif.C02
